@@ -218,6 +218,8 @@ def _check(case):
                         "multiple leaf nodes", "No combinable nodes found", "Cannot simplify", "MapSpec")
             if any(m in str(e) for m in refusals):
                 continue  # the rewrite states that it does not apply to this pipeline
+            if "Inconsistent default values" in str(e) and dag.conflicting_defaults(d) and r in ("nest", "nest-all", "simplify"):
+                continue  # consumers that disagree on the default of an argument cannot be put into one nest (C12 rule)
             bad.append(f"rewrite {r} (after {applied}) raised {type(e).__name__}: {str(e)[:160]}")
             return bad
         except Exception as e:  # noqa: BLE001
